@@ -285,6 +285,70 @@ let run_avl params ops =
   freed := !freed + size ();
   String.concat " ; " (out @ [Printf.sprintf "Z %s" (hi (if withfree then !freed else 0)); "E 0"])
 
+(* ---------------- AVL tree as a sequence (positions chosen by the caller) ---------------- *)
+let run_aseq params ops =
+  let withfree = match params with [b] -> b <> Z0 | _ -> failwith "aseq params" in
+  let st = ref avl_new in
+  let freed = ref 0 in
+  let kt (k : z * z) = h (fst k) ^ "." ^ h (snd k) in
+  let ok = function Some k -> kt k | None -> "-" in
+  let rec height t = match t with E -> 0 | N (l, _, _, r) -> 1 + max (height l) (height r) in
+  let size () = List.length (inorder (a_top !st)) in
+  let out = List.map (fun tok ->
+    let (o, a) = fields tok in
+    let arg i = if i < List.length a then List.nth a i else Z0 in
+    let stepop op = let (s', r) = qstep !st op in st := s'; r in
+    let count () = h (cnt (a_top !st)) in
+    let lst c r = match r with QoList l -> String.concat " " (c :: hi (List.length l) :: List.map kt l) | _ -> "?" in
+    match o with
+    | "P" -> (match stepop (QInsBefore (arg 0, (arg 1, arg 2))) with QoCnt c -> "P " ^ h c | _ -> "?")
+    | "N" -> (match stepop (QInsAfter (arg 0, (arg 1, arg 2))) with QoCnt c -> "N " ^ h c | _ -> "?")
+    | "D" -> (match stepop (QDeleteAt (arg 0)) with
+        | QoItem (Some k) -> incr freed; Printf.sprintf "D 1 %s %s" (kt k) (count ())
+        | QoItem None -> "D 0 " ^ count ()
+        | _ -> "?")
+    | "a" -> (match stepop (QAt (arg 0)) with QoItem o -> "a " ^ ok o | _ -> "?")
+    | "x" -> (match stepop (QIndexAt (arg 0)) with QoIdx (Some i) -> "x " ^ h i | QoIdx None -> "x -" | _ -> "?")
+    | "c" -> (match stepop QCount with
+        | QoCnt c -> let t = a_top !st in
+          Printf.sprintf "c %s 1 | %s %s" (h c) (match t with N (_, k, _, _) -> h (fst k) | E -> "0") (hi (height t))
+        | _ -> "?")
+    | "f" -> lst "f" (stepop QForeach)
+    | "t" -> lst "t" (stepop QThread)
+    | "b" -> lst "b" (stepop QThreadRev)
+    | "e" -> (match stepop QEnds with QoEnds (f, l) -> Printf.sprintf "e %s %s" (ok f) (ok l) | _ -> "?")
+    | "z" -> freed := !freed + size (); ignore (stepop QClear); "z " ^ count ()
+    | _ -> "UNKNOWN_OP") ops in
+  freed := !freed + size ();
+  String.concat " ; " (out @ [Printf.sprintf "Z %s" (hi (if withfree then !freed else 0)); "E 0"])
+
+(* ---------------- two lists sharing one allocator ---------------- *)
+let run_mlist params ops =
+  let pre = match params with [b] -> int_of_z b | _ -> failwith "mlist params" in
+  let pool = ref (mempool_new (zi 16) false) in
+  for _ = 1 to pre do let ((p, _), _) = mempool_alloc !pool in pool := p done;
+  let st = ref (sh_new !pool) in
+  let oz = function Some v -> h v | None -> "-" in
+  let out = List.map (fun tok ->
+    let (o, a) = fields tok in
+    let arg i = List.nth a i in
+    let w = arg 0 <> Z0 in
+    let stepop op = let (s', r) = sh_step !st w op in st := s'; r in
+    let show c r = match r with
+      | LO (ret, cnt, f, l) -> Printf.sprintf "%s %s %s %s %s | %s" c (h ret) (h cnt) (oz f) (oz l) (h (mp_count (sh_pool !st)))
+      | LList l -> String.concat " " (c :: hi (List.length l) :: List.map h l) in
+    match o with
+    | "p" -> show "p" (stepop (LPrepend (arg 1)))
+    | "q" -> show "q" (stepop (LAppend (arg 1)))
+    | "n" -> show "n" (stepop (LInsert (nat_of_z (arg 1), arg 2)))
+    | "m" -> show "m" (stepop (LRemove (nat_of_z (arg 1))))
+    | "o" -> show "o" (stepop LPop)
+    | "x" -> show "x" (stepop LReset)
+    | "u" -> show "u" (stepop LUnlink)
+    | "d" -> show "d" (stepop LDump)
+    | _ -> "UNKNOWN_OP") ops in
+  String.concat " ; " (out @ ["E 0"])
+
 let () = iter_lines (fun line ->
   match String.index_opt line '|' with
   | None -> if String.trim line <> "" then print_endline "BAD_CASE"
@@ -304,6 +368,8 @@ let () = iter_lines (fun line ->
            | "rec" -> run_rec params ops
            | "kv" -> run_kv params ops
            | "avl" -> run_avl params ops
+           | "aseq" -> run_aseq params ops
+           | "mlist" -> run_mlist params ops
            | _ -> "UNKNOWN_CONTAINER")
          with Failure m -> "MODEL_FAILURE " ^ m | Not_found -> "MODEL_FAILURE not_found" | Invalid_argument m -> "MODEL_FAILURE " ^ m in
        print_endline out))
